@@ -3,6 +3,9 @@
 usage: seed_import.py <result json of tools/seed_eval.py> ..."""
 import json, os, shutil, sys
 OFFSET = 0
+ROUND = None
+if '--round' in sys.argv:
+    i = sys.argv.index('--round'); ROUND = int(sys.argv[i + 1]); del sys.argv[i:i + 2]
 if '--offset' in sys.argv:
     i = sys.argv.index('--offset'); OFFSET = int(sys.argv[i + 1]); del sys.argv[i:i + 2]
 ROOT = os.path.dirname(os.path.dirname(os.path.abspath(__file__)))
@@ -22,7 +25,7 @@ for rf in sys.argv[1:]:
         shutil.copy(os.path.join(src, f), os.path.join(dst, f))
     meta = json.load(open(os.path.join(src, 'meta.json')))
     meta['id'] = sid
-    meta['round'] = 2 if OFFSET else 1
+    meta['round'] = ROUND if ROUND is not None else (2 if OFFSET else 1)
     meta['origin'] = 'independent sub-agent given only the property text and a scratch worktree of /repo (HEAD incl. the fix: commits)'
     meta['confirmed'] = {
         'how': 'tools/seed_eval.py: patch applied to a scratch copy of /repo; tools/baseline.py (2830 pinned tests) on the copy; '
